@@ -47,6 +47,11 @@ def build(ctx, v, t):
                 return Fraction(v) if ctx.exact else float(v)
             return num(ctx, v)
         return num(ctx, v)
+    if isinstance(t, S._NanRealT):
+        if isinstance(v, dict) and v.get("__nan__"):
+            return float("nan")
+        x = num(ctx, v)
+        return float(x) if isinstance(x, (int, Fraction)) and not ctx.exact else x
     if isinstance(t, S.Lit):
         return t.value
     if isinstance(t, S.Opt):
